@@ -1566,14 +1566,11 @@ def verbose_case(ctx, case):
             all_ok = False
     if kind == "observable":
         fmt.append([-10, format(10, ".6f"), None])       # num_samples
-    prints = case["verbose"] == "True"
     # ---- oracles on the implementation (twins)
-    if Q["raised"] is None and (all_ok or not prints):
+    if Q["raised"] is None and all_ok:
         ctx.oracle("verbose on/off twins: same records (len, epochs, last, history, CSV rows), no exception, whenever every value is formattable",
                    V["raised"] is None and V["state"] == Q["state"], case,
                    detail={"verbose": {k: V[k] for k in ("state", "raised", "at")}, "quiet": Q["state"]}, sig=f"{sig}/twins", theorem=TH_VERB)
-        ctx.oracle("only `verbose is True` prints, and only at evaluations", (V["stdout"] != "") == (prints and V["state"]["len"] > 0) and Q["stdout"] == "",
-                   case, detail={"stdout": V["stdout"][:300], "quiet_stdout": Q["stdout"][:100]}, sig=f"{sig}/prints", theorem="C17_verbose_identity_test")
     else:
         ctx.count(f"verbose:unformattable value met ({kind}): outside the property's values, effects compared with the model at aux level")
     if ctx.driver is None:
@@ -1611,8 +1608,9 @@ def verbose_case(ctx, case):
     ctx.point("evaluator.names", "property", list(ev.names), m["names"], case, exact=True, theorem="C17_columns_of_names", sig=f"{sig}/names")
     ctx.point("csv_fields (header of the CSV log)", "property", list(ev.csv_fields), m["fields"], case, exact=True, theorem="C17_columns_of_names",
               sig=f"{sig}/fields")
-    lvl = "property" if (all_ok or not prints) else "aux"
-    th = TH_VERB if lvl == "property" else "C17_verbose_unformattable_partial, C17_verbose_unformattable_partial_observable"
+    # a value `{v:.6f}` cannot format is outside the property's values: whatever `verbose` is, the effects are compared at aux level then
+    lvl = "property" if all_ok else "aux"
+    th = TH_VERB if lvl == "property" else "C17_verbose_unformattable_partial, C17_verbose_unformattable_partial_observable, C17_verbose_identity_test"
     ctx.point("raised (an exception left on_epoch_end)", lvl, V["raised"] is not None, m["err"] is not None, case, exact=True, theorem=th, sig=f"{sig}/raised")
     ctx.point("len and epochs", lvl, [V["state"]["len"], V["state"]["epochs"]], [m["len"], m["epochs"]], case, exact=True, theorem=th, sig=f"{sig}/epochs")
     if kind == "metric":
